@@ -1002,7 +1002,32 @@ def mc_schedule(out, tier):
             extra_env={"INSTANCE": ip}, workers=max(4, common.NCPU - 2), timeout=6000, cont=False, xmx="12g"))
 
 
+def mc_circulation(out, tier):
+    d = os.path.join(common.WORK, "cache", "mc_" + spec_hash())
+    os.makedirs(d, exist_ok=True)
+    for variant in ((0,) if tier == "quick" else (0, 1)):
+        ip = os.path.join(d, "mccirc_%d.json" % variant)
+        with open(ip, "w") as f:
+            json.dump(gen.spec_view(mcinst.tiny(variant, 2)), f)
+        mc_cached(out, "MC_Circulation_v%d" % variant, lambda: common.run_tlc(
+            "MC_Circulation", invariants=["CriterionExact", "NonVacuous"], constants={"MaxVeh": "3"},
+            extra_env={"INSTANCE": ip}, workers=8, timeout=3000, cont=False))
+
+
+def mc_tourcache(out, tier):
+    """TourCache.tla!CacheLaws (with the insert/remove laws) on all tiny networks of a small bound."""
+    from check import Outcome as _O
+    bnd = {"MinActs": "1", "MaxActs": "2", "MaxMnt": "1", "Starts": "{0,1}", "Durs": "{1,2}"}
+    tmp = _O()
+    tours_mod.run_gen(tier, tmp, bnd=bnd)      # cached per specification version; Laws is an invariant of every run
+    out.states += tmp.states
+    out.transitions += tmp.transitions
+    out.tlc_runs.append({"run": "MC:Gen_Tour!Laws(CacheLaws)", "distinct": tmp.states, "generated": tmp.transitions,
+                         "wall_s": sum(r.get("wall_s", 0) for r in tmp.tlc_runs)})
+
+
 MC_LEGS = {
+    "C14": [mc_circulation], "C09": [mc_schedule, mc_tourcache], "C04": [mc_tourcache],
     "C01": [mc_schedule], "C02": [mc_schedule], "C03": [mc_schedule], "C05": [mc_schedule],
     "C10": [mc_schedule], "C13": [mc_schedule],
     "C06": [mc_pipeline], "C07": [mc_pipeline], "C08": [mc_pipeline], "C16": [mc_pipeline],
